@@ -8,6 +8,7 @@ from dataclasses import asdict
 from . import core
 from .framework import Prop, Report
 from .reduce_ops import (
+    ENGINE_CLASS,
     ARG, FIRSTLAST, INF, NAN, REDUCTIONS, Case, cmp_impl_model, cmp_impl_oracle, cmp_oracle_spec, default_in_domain,
     gen_chunks, gen_expected, gen_labels, gen_vals, model_line, parse_model_output, run_impl, run_oracle,
 )
@@ -190,6 +191,12 @@ class ReduceProp(Prop):
             if len(rep.samples) < 6 and nontrivial(c):
                 rep.add_sample({"case": core.jsonable(asdict(c)), "impl": core.jsonable(im.get("vals") if im["kind"] == "ok" else im),
                                 "plan": core.jsonable(plan), "model_line_out": mout.get(i)})
+        if len(cases) > 1:
+            self.after_cases(cases, impls, rep)
+
+    def after_cases(self, cases, impls, rep: Report):
+        """hook for streams that reuse the evaluated cases (C20: integer widths) or add their own (C01: kernels)"""
+        return None
 
     def replay(self, payload, rep: Report):
         d = payload["case"]
@@ -247,13 +254,78 @@ class C01(ReduceProp):
     lean_module = "FloxProps.C01"
     rule = ("seeded generator: 1-D values from {-3..3,5,NaN,+-inf} (float/int/bool dtypes), labels with 1-4 groups "
             "(random/sorted/periodic/runs, optional missing), eager call on every engine setting; non-trivial = at least "
-            "two elements and (>=2 groups or a repeated/missing label); distinct = hash of the full case")
+            "two elements and (>=2 groups or a repeated/missing label); distinct = hash of the full case; plus a kernel-level "
+            "stream (n/4 cases): flox.aggregations.generic_aggregate called directly on every engine (15 kernels, codes in "
+            "0..3, values with NaN/+-inf, fills NaN/-5/0) compared slot by slot with the Lean engine models (all slots) and "
+            "with NumPy per group (slots with a valid member)")
     quick_n = 1500
     thorough_n = 20000
 
     def gen(self, rng, tier, i):
         return make_case(rng, chunked=False, nmax=12 if tier == "quick" else 30, expected_modes=["none", "none", "exact", "superset"],
                          mcs=(None,), fills=(None, None, NAN, -7))
+
+    # -- kernel-level stream: the engines called directly (flox.aggregations.generic_aggregate), below groupby_reduce's own
+    #    count mask, which hides what an engine returns for all-NaN / empty groups -----------------------------------------
+    KERNELS = ["sum", "nansum", "prod", "nanprod", "max", "nanmax", "min", "nanmin", "mean", "nanmean", "nanlen",
+               "first", "last", "nanfirst", "nanlast"]
+
+    def after_cases(self, cases, impls, rep: Report):
+        parent = getattr(super(), "after_cases", None)
+        if parent:
+            parent(cases, impls, rep)
+        import numpy as np
+        from flox.aggregate_flox import _prepare_for_flox
+        from flox.aggregations import generic_aggregate
+
+        rng = random.Random(len(cases) * 7919 + sum(len(c.vals) for c in cases[:50]))
+        n = max(200, len(cases) // 4)
+        todo, lines = [], []
+        for _ in range(n):
+            k = rng.choice(self.KERNELS)
+            eng = rng.choice(["numpy", "flox", "flox", "numbagg"])
+            size = rng.randint(1, 4)
+            m = rng.randint(1, 10)
+            codes = [rng.randrange(size) for _ in range(m)]
+            vals = gen_vals(rng, m, "float64", rng.choice(["finite", "nan", "nan", "inf", "mixed", "infnan"]))
+            fill = rng.choice([NAN, NAN, -5.0, 0.0])
+            if k == "nanlen":
+                fill = 0.0          # flox only ever asks for counts with fill 0 (an integer result cannot hold NaN)
+            todo.append((k, eng, size, codes, vals, fill))
+            lines.append(f"kernel eng={ENGINE_CLASS[eng]} k={k} ddof=0 size={size} fill={core.tok(fill)} | "
+                         f"{','.join(map(str, codes))} | {core.toks(vals)}")
+        outs = core.Driver().run(lines)
+        for (k, eng, size, codes, vals, fill), out in zip(todo, outs):
+            rep.evaluations += 1
+            rep.dist[f"kernel-stream:{eng}"] += 1
+            case = {"kernel": k, "engine": eng, "size": size, "codes": codes, "vals": core.jsonable(vals), "fill": core.jsonable(fill)}
+            if not out.startswith("ok "):
+                rep.dist["kernel-stream:model-not-expressible"] += 1
+                continue
+            mvals, svals = [x.split(",") for x in out[3:].split(" | ")]
+            g, a = np.array(codes, dtype=np.intp), np.array(vals, dtype="float64")
+            try:
+                if eng == "flox":
+                    g, a, _ = _prepare_for_flox(g, a)
+                res = np.asarray(generic_aggregate(g, a, engine=eng, func=k, axis=-1, size=size, fill_value=fill, dtype=None))
+                if eng == "numbagg":
+                    from flox.core import _postprocess_numbagg     # chunk_reduce's companion of the numbagg wrappers
+
+                    res = _postprocess_numbagg(res, func=k, size=size, fill_value=fill, seen_groups=np.unique(g))
+            except Exception as e:  # noqa
+                rep.tie1.append((case, f"kernel-stream: engine raised {type(e).__name__}: {str(e)[:120]} ; model {mvals}"))
+                continue
+            mode = "approx" if k in ("mean", "nanmean", "prod", "nanprod", "sum", "nansum") else "exact"
+            if len(res) != len(mvals) or not all(core.same_value(t, x, mode) for t, x in zip(mvals, res.tolist())):
+                rep.tie1.append((case, f"kernel-stream: engine {eng} returned {res.tolist()}, model {mvals}"))
+            # the property itself at kernel level: every engine returns NumPy's value for every group that has a (valid)
+            # member; what an engine puts into empty / all-NaN slots is a convention groupby_reduce masks with its counts
+            skips = k.startswith("nan")
+            live = [any(c == j and not (skips and v != v) for c, v in zip(codes, vals)) for j in range(size)]
+            bad = [j for j in range(min(size, len(res), len(svals))) if live[j] and not core.same_value(svals[j], res.tolist()[j], mode)]
+            if bad:
+                rep.direct.append((case, f"kernel-stream: engine {eng} kernel {k} returned {res.tolist()}, NumPy per group {svals} "
+                                         f"(slots {bad})"))
 
 
 class C02(ReduceProp):
